@@ -26,6 +26,10 @@ CHECKS = {
    "explicit-state BFS over create/write/to-WAL/drop/re-create histories with connected, lagging, restarting and late-joining replicas",
    "After every event: a drop advances the TXID by one with exactly the empty checksum; database, journal, wal and shm are gone on the primary and on every connected replica (also after restart or late join); directory listings hide the name on every node; re-creation continues the TXID sequence and replicates; chain monitor across the tombstone.",
    "Same lab as C01; crash points inside the drop belong to C05.", "§4 C15"),
+ "C17": ("model_checking", "E1-inputs",
+   "exhaustive enumeration of interruption points and torn writes of simulated journals plus field-wise mutation/truncation families of journals and WALs, each opened by a real Store; differential against an independent WAL scanner",
+   "Every file-operation boundary (and three torn variants of every journal write) of rollback-journal transactions of 7-8 shapes incl. multi-segment, no-sync, stale PERSIST tails and a database's very first transaction, at three or more (page, sector) geometries, is reopened by a fresh Store and must yield exactly the pre-transaction image (post-transaction once the journal was finalised). Every header/record field mutation, zeroed region and truncation class of complete journals and of WALs in both byte orders must neither panic, hang, exit, write outside the database nor open successfully with an image other than the one the position names; litefs.WALReader's accepted frame sequence must equal an independent scanner's longest valid prefix.",
+   "Journals come from the pager simulator (not real SQLite). Random bytes replaced by exhaustive families. Hang = 25 s real-time watchdog confirmed by a re-run.", "§4 C17"),
  "C18": ("model_checking", "E1-inputs",
    "exhaustive input enumeration of the real codecs: all values x all <=3-piece read splits x all proper prefixes x hostile length fields, allocation measured in rlimit-ed worker subprocesses",
    "Every frame type with names {empty, a, 255 B, all byte values, 64 KiB} and six integer values, six position maps and 120 chunk writer/reader configurations around the 65535 limit are encoded by the real writers and decoded by the real readers under every split into at most three reads (complete for encodings up to 64 bytes, boundary-focused above) and one byte at a time; every proper prefix must be an error and never a clean EOF; every length field is replaced by five hostile values and the decoder's allocation must stay within 1 MiB + 64 x bytes received; ReadFullAt is run over every short-read/EOF script for buffers up to 4.",
